@@ -12,6 +12,8 @@ TCallEnc == IsEv("call_enc") /\ LET e == Rec[l] IN
               /\ e.got = E!ExpectedCallNames(e.own, e.oneway, e.more, e.upgrade)
               /\ e.flag_vals_true /\ e.own_kept
 TCallRt == IsEv("call_rt") /\ Rec[l].ok
+\* the same envelope from zlink's own serializer, whatever the buffer length
+TCallSlice == IsEv("call_slice") /\ Rec[l].ok
 TCallDec == IsEv("call_dec") /\ LET e == Rec[l] IN
               /\ e.call_ok = e.rest_ok                 \* the envelope neither adds nor hides failures
               /\ (e.call_ok => /\ e.same_method        \* every other member passed through
@@ -31,7 +33,7 @@ TReplyEnc == IsEv("reply_enc") /\ Rec[l].got = E!ExpectedReplyNames(Rec[l].has_p
 TReplyDec == IsEv("reply_dec") /\ Rec[l].ok /\ Rec[l].same /\ Rec[l].via_conn
 TSpelling == IsEv("spelling") /\ Rec[l].form \in E!NoParamSpellings /\ Rec[l].ok
 TOther == IsEv("reset") \/ IsEv("end")
-TNext == TCallEnc \/ TCallRt \/ TCallDec \/ TErrEnc \/ TErrDec \/ TReplyEnc \/ TReplyDec \/ TSpelling \/ TOther
+TNext == TCallEnc \/ TCallRt \/ TCallSlice \/ TCallDec \/ TErrEnc \/ TErrDec \/ TReplyEnc \/ TReplyDec \/ TSpelling \/ TOther
 TSpec == TInit /\ [][TNext]_l
 Accepted ==
     LET d == TLCGet("stats").diameter IN
